@@ -38,7 +38,7 @@ BOUNDS = {
     "thorough": "all managers of <=3 definitions, <=3 faulty updates in a row, both builds",
 }
 OUTSIDE = "faults inside index maintenance (register/unregister) - set_value touches the indices only before the first write; FunctionTask actions raising (same run_tasks loop)"
-REQUIRED_CLASSES = ["fault_injected", "fault_at_first_write", "fault_mid_update", "repeat_ok", "second_fault", "interrupt_fault"]
+REQUIRED_CLASSES = ["fault_injected", "fault_at_first_write", "fault_mid_update", "repeat_ok", "second_fault", "interrupt_fault", "knob_scenarios"]
 PROFILE_CASES = 4
 TASKS_PER_CHILD = 30
 LOCS = ["a", "b", "c", "n.x", "l0"]
@@ -146,7 +146,92 @@ def target_loc(task):
     return None
 
 
+def run_knob(ex, case):
+    """Linear-knob tasks in the update: source (plain or derived) -> knob targets -> a reader.
+    Every write position of the update fails once (or twice), then the assignment is repeated."""
+    st = FState(ex, case["build"])
+    if case.get("fault") == "interrupt":
+        st.env.exc = InjectedInterrupt
+    m, r, d = st.m, st.r, st.d
+    L = "a"
+    targets = case["targets"]                     # e.g. ["b"] or ["b", "n.x"]
+    ws = [3, -2][:len(targets)]                   # concrete weights keep the obligations linear
+    if case.get("derived_source"):
+        st.apply(("expr", "c", ("add", ("loc", "a"), ("const", 1))))
+        S = "c"
+    else:
+        S = "a"
+    knob = st.xd.tasks.LinearKnob("knob", U.getref(r, S), ws, [U.getref(r, t) for t in targets])
+    m.register(knob)
+    reader = case.get("reader")                   # location defined as 2 * first target
+    if reader:
+        st.apply(("expr", reader, ("mul", ("loc", targets[0]), ("const", 2))))
+    note(ex, "knob_scenarios")
+    t0 = {t: U.getval(d, t) for t in targets}
+    s0 = U.getval(d, S)
+    ref = U.getref(r, L)
+    v = ex.int("v_new")
+    nfaults = 1 + ex.choose(case.get("maxfaults", 2))
+    for f in range(nfaults):
+        if f > 0 and ex.choose(2) == 1:
+            v = ex.int(f"v_new{f}")
+        plan = m.find_tasks(ref._get_dependencies())
+        nwrites = 1 + sum(len(targets) if t is knob else 1 for t in plan)
+        k = ex.choose(nwrites)
+        before = {"snap": c03.snapshot(m, st.xd), "queries": c03.queries(m, r, None), "dump": sorted(map(tuple, m.dump()))}
+        st.env.arm(k)
+        note(ex, "fault_injected")
+        try:
+            U.assign(r, L, v)
+            ex.fail(f"knob scenario: fault at write {k} of the update of {L} did not reach the caller", {"case": case})
+            return
+        except FAULTS:
+            pass
+        except (Abort, Inconclusive):
+            raise
+        except Exception as e:
+            ex.fail(f"knob scenario: fault at write {k}: caller got {type(e).__name__}: {e}", {"case": case})
+            return
+        finally:
+            st.env.fail_at = None
+        st.hist.append(f"{L} = <value> with fault at write {k} of {nwrites}")
+        after = {"snap": c03.snapshot(m, st.xd), "queries": c03.queries(m, r, None), "dump": sorted(map(tuple, m.dump()))}
+        if after != before:
+            ex.fail(f"knob scenario: a failed update changed {[x for x in after if after[x] != before[x]]}", {"history": list(st.hist)})
+            return
+    try:
+        U.assign(r, L, v)
+    except (Abort, Inconclusive):
+        raise
+    except Exception as e:
+        ex.fail(f"knob scenario: fault-free repeat raised {type(e).__name__}: {e}", {"history": list(st.hist)})
+        return
+    st.hist.append(f"{L} = <same value>, no fault")
+    note(ex, "repeat_ok")
+    det = {"history": list(st.hist), "targets": targets, "source": S}
+    s1 = v + 1 if S == "c" else v
+    if not ex.prove(eq(U.getval(d, S), s1), "knob scenario: the knob's source does not hold its value after the repeat", det):
+        return
+    for w, t in zip(ws, targets):
+        if not ex.prove(eq(U.getval(d, t), t0[t] + w * (s1 - s0)),
+                        f"after the fault-free repeat: knob target {t} != old value + weight * (change of the source)", det):
+            return
+    if reader and not ex.prove(eq(U.getval(d, reader), 2 * U.getval(d, targets[0])),
+                               f"after the fault-free repeat: {reader} != its definition", det):
+        return
+    # one more ordinary update: the knob keeps following the source
+    v2 = ex.int("v_after")
+    U.assign(r, L, v2)
+    s2 = v2 + 1 if S == "c" else v2
+    for w, t in zip(ws, targets):
+        if not ex.prove(eq(U.getval(d, t), t0[t] + w * (s2 - s0)),
+                        f"after recovery and one more update: knob target {t} != old value + weight * (change of the source)", det):
+            return
+
+
 def run_case(ex, case):
+    if case.get("mode") == "knob":
+        return run_knob(ex, case)
     st = FState(ex, case["build"])
     if case.get("fault") == "interrupt":
         st.env.exc = InjectedInterrupt
@@ -308,4 +393,9 @@ def cases(tier):
                         out.append({"build": b, "defs": defs, "loc": L, "maxfaults": 2, "assign_expr": True})
                     if k == 1 or (k == 2 and len(out) % 3 == 0):
                         out.append({"build": b, "defs": defs, "loc": L, "maxfaults": 2, "fault": "interrupt"})
+        for targets in (["b"], ["b", "n.x"], ["l0", "l1"]):
+            for derived in (False, True):
+                for reader in (None, "n.y"):
+                    out.append({"mode": "knob", "build": b, "targets": targets, "derived_source": derived, "reader": reader, "maxfaults": 2})
+        out.append({"mode": "knob", "build": b, "targets": ["b"], "derived_source": True, "reader": "n.y", "maxfaults": 2, "fault": "interrupt"})
     return out
